@@ -20,7 +20,7 @@ RULE = (
 ASSUMPTIONS = [
     "bitwise clauses (a with MZ=inf, b) compare two runs of the same process with the same compiled code",
     "clause a decouples the Z with MZ=inf (propagator ratio exactly 0) or MZ=1e150 (ratio ~1e-297)",
-    "polarised CC, polarised N3LO and N3LO massive NC (NaN, open C16 finding) are not generated",
+    "polarised CC and polarised N3LO (documented gaps, explicitly rejected by the code) are not generated",
 ]
 BUDGET = {
     "quick": {"examples": 4000, "wall": 300},
